@@ -9,6 +9,50 @@ package c14
 var intFnPre = []directedFn{{name: "F", params: []ty{tInt}, ret: tInt, pre: "deploy"}}
 
 var directedInside = []directedProg{
+	{name: "fields-promoted-from-several-embedded-structs", regress: true, fns: intFn, src: `
+type Inner1 struct {
+	x int
+	y int
+}
+
+type Inner2 struct {
+	w int
+	z int
+}
+
+type Deep struct {
+	Inner2
+	q int
+}
+
+type Rec struct {
+	Inner1
+	Inner2
+	n int
+}
+
+type Rec2 struct {
+	Inner1
+	Deep
+}
+
+func F(a0 int) int {
+	r := Rec{n: a0}
+	r.x = 1
+	r.y = 2
+	r.w = a0 + 3
+	r.z = r.w * 2
+	p := &Rec{n: 3}
+	p.w = r.w + 5
+	p.y = 6
+	s := Rec2{}
+	s.x = 4
+	s.w = a0 + 1
+	s.z = 7
+	s.q = s.w + s.z
+	return r.x*100000 + r.y*10000 + r.w*1000 + r.z*100 + r.n*10 + s.x + s.w*3 + s.z*5 + s.q*11 + p.y
+}
+`},
 	{name: "literal-elements-without-key-after-keyed-ones", regress: true, fns: []directedFn{
 		{name: "F", params: []ty{tInt}, ret: tInt}, {name: "G", params: []ty{tInt}, ret: tInts}, {name: "H", params: []ty{tInt}, ret: tBytes}}, src: `
 const third = 2
